@@ -791,6 +791,7 @@ func runEngine(kind string, a []string) string {
 	e.s.stamp = c.opt["stamp"] != 0
 	e.s.blind = c.opt["blind"] != 0
 	e.s.deadlineErrs = c.opt["dl"] != 0
+	e.s.missErrs = c.opt["nf"] != 0
 	for i := 1; i <= int(c.opt["inst"]); i++ {
 		e.start(i)
 	}
